@@ -240,7 +240,7 @@ func verifHosts(l *roundRobinLoadBalancer) []*Host { return l.hosts.Load().([]*H
 // Session.Send: the request is handed to the least busy connection of the host's pool, or refused.
 // $sends counts the requests a backend connection accepted (ClientConn.Send returned nil).
 //@ func proxycore.Session.Send [C01, C04, C05]
-//@   requires s != nil && host != nil
+//@   requires s != nil && host != nil && request != nil
 //@   requires well-formed-request: reqOK(request) [C17]
 //@   after proxycore.ClientConn.Send#1 set $sends = $sends + ite(result == nil, 1, 0)
 //@   ensures result == nil ==> $sends == old($sends) + 1
@@ -260,10 +260,20 @@ func verifHosts(l *roundRobinLoadBalancer) []*Host { return l.hosts.Load().([]*H
 // ---------------------------------------------------------------------------------------------
 
 // pendingRequests, abstractly: a partial map from backend stream ids [0, MaxStreams) to requests
-// ($has / $tag / $val) - the view of the sync.Map plus the free-list channel. store and
-// loadAndDelete are the (assumed, linearizable) operations that define the view.
+// ($has / $tag / $val) - the view of the sync.Map - plus the free-list channel. The sync.Map's Store /
+// Load / LoadAndDelete are updates of the view (syncview); the bodies of store and loadAndDelete are
+// verified against it. The free list holds ids that are not in the map (chan clause, assumed at a
+// receive, checked at a send); what keeps that true between a send and a later receive is the
+// free-list protocol, checked as two obligations: an entry is stored only under the id just taken
+// from the free list, and an id is put back only after its entry has been deleted. Assumed: each
+// sync.Map operation is atomic (linearizable), and newPendingRequests fills the free list with every
+// id once (its loop is not under contract).
 //@ type proxycore.pendingRequests
 //@   ghost $has bmap, $tag imap, $val imap
+//@   immutable: pending, streams
+//@   syncview pending(int16): $has, $tag, $val free streams
+//@   syncmap pending: typeis(v, Request) && reqOK(v) && 0 <= as(k, int16) && as(k, int16) < MaxStreams
+//@   chan streams open: 0 <= v && v < MaxStreams && !self.$has[v]
 
 // C17: prepareRequest.Execute is not implemented (it panics, and a panic in a connection's reader
 // goroutine takes the whole process down), so it must be unreachable: the request a prepareRequest
@@ -276,8 +286,7 @@ func verifHosts(l *roundRobinLoadBalancer) []*Host { return l.hosts.Load().([]*H
 //@ macro reqOK(q) = typeis(q, *proxycore.prepareRequest) ==> prOK(as(q, *proxycore.prepareRequest))
 
 //@ func proxycore.pendingRequests.store [C02]
-//@   trusted
-//@   requires p != nil
+//@   requires p != nil && request != nil
 //@   requires well-formed-request: reqOK(request) [C17]
 //@   ensures result >= -1 && result < MaxStreams
 //@   ensures allocated: result >= 0 ==> !old(p.$has[result]) && p.$has[result] && p.$tag[result] == tagof(request) && p.$val[result] == valof(request)
@@ -290,11 +299,11 @@ func verifHosts(l *roundRobinLoadBalancer) []*Host { return l.hosts.Load().([]*H
 //@ ghostvar $arrived bool
 //@ ghostvar $arrivedStream int16
 //@ func proxycore.pendingRequests.loadAndDelete [C01, C02]
-//@   trusted
 //@   requires p != nil
 //@   requires response-arrived: $arrived && stream == $arrivedStream
-//@   ensures found: 0 <= stream && stream < MaxStreams && old(p.$has[stream]) ==> tagof(result) == old(p.$tag[stream]) && valof(result) == old(p.$val[stream]) && result != nil && !p.$has[stream]
-//@   ensures missing: !(0 <= stream && stream < MaxStreams && old(p.$has[stream])) ==> result == nil
+//@   ensures found: old(p.$has[stream]) ==> tagof(result) == old(p.$tag[stream]) && valof(result) == old(p.$val[stream]) && result != nil && !p.$has[stream]
+//@   ensures missing: !old(p.$has[stream]) ==> result == nil
+//@   ensures in-range: result != nil ==> 0 <= stream && stream < MaxStreams
 //@   ensures stored-well-formed: reqOK(result)
 //@   ensures others: forall(s, 0, MaxStreams, s != stream ==> p.$has[s] == old(p.$has[s]) && p.$tag[s] == old(p.$tag[s]) && p.$val[s] == old(p.$val[s]))
 //@   modifies nothing, p.$has, p.$tag, p.$val
@@ -337,7 +346,7 @@ func verifHosts(l *roundRobinLoadBalancer) []*Host { return l.hosts.Load().([]*H
 // addToPending: under the read lock, a closing connection refuses; otherwise the request gets a
 // stream id that was free and now maps to exactly this request.
 //@ func proxycore.ClientConn.addToPending [C01, C02, C18]
-//@   requires c != nil && c.closingMu != nil && c.pending != nil
+//@   requires c != nil && c.closingMu != nil && c.pending != nil && request != nil
 //@   requires well-formed-request: reqOK(request) [C17]
 //@   ensures registered: result1 == nil ==> result0 >= 0 && result0 < MaxStreams && !old(c.pending.$has[result0]) && c.pending.$has[result0] && c.pending.$val[result0] == valof(request) && c.pending.$tag[result0] == tagof(request)
 //@   ensures refused: result1 != nil ==> forall(s, 0, MaxStreams, c.pending.$has[s] == old(c.pending.$has[s]) && c.pending.$val[s] == old(c.pending.$val[s]))
@@ -380,7 +389,7 @@ func verifHosts(l *roundRobinLoadBalancer) []*Host { return l.hosts.Load().([]*H
 //@ func proxycore.ClientConn.Send [C01, C02]
 //@   local $sndStream int16 = 0
 //@   local $sndRegistered bool = false
-//@   requires c != nil && c.closingMu != nil && c.pending != nil && c.conn != nil
+//@   requires c != nil && c.closingMu != nil && c.pending != nil && c.conn != nil && request != nil
 //@   requires well-formed-request: reqOK(request) [C17]
 //@   after proxycore.ClientConn.addToPending#1 set $sndStream = result0; $sndRegistered = (result1 == nil)
 //@   ensures not-registered-error: !$sndRegistered ==> result != nil
